@@ -47,6 +47,7 @@ let rec edit_ops toks =
 
 let cur_proto = ref UDP
 let show_hdr = ref false     (* allocation regime 2 on UDP: the header in memory is shown *)
+let cur_hdr : z list ref = ref []   (* that header, as the model's coap_update_token leaves it *)
 
 (* type and message id are not carried by the reliable framings *)
 let from_code (d : string) : string =
@@ -69,7 +70,7 @@ let dump_b (p : ed_bpdu) : string =
             let theirs = dump_msg m' in
             if m'.m_code = m.m_code && from_code mine = from_code theirs then "rp=="
             else Printf.sprintf "rp=[%s]" theirs in
-      let h = if !show_hdr then hex_of_bytes (header UDP m) else "-" in
+      let h = if !show_hdr then hex_of_bytes !cur_hdr else "-" in
       Printf.sprintf "[%s] b=%s h=%s %s" mine (hex_of_bytes p.eb_buf) h rp
 
 let same_as_spec (p : ed_bpdu) (q : pdu) : bool =
@@ -118,6 +119,8 @@ let c04_gen cast8 toks =
            Buffer.add_string b (Printf.sprintf "start=%s %s" tag (dump_b p0));
            if not (same_as_spec p0 q0) then Buffer.add_string b " SPECDIFF@start";
            show_hdr := (amode = "2" && pr = UDP);
+           (* coap_pdu_encode_header before the first edit *)
+           (match ed_abs p0 with Some m0 -> cur_hdr := header UDP m0 | None -> ());
            let p = ref p0 and q = ref q0 and stuck = ref false and i = ref 0 in
            List.iter (fun e ->
                incr i;
@@ -125,6 +128,10 @@ let c04_gen cast8 toks =
                  let rb =
                    match e with
                    | EdToken t when cast8 -> ed_b_token_cast8 !p t
+                   | EdToken t when !show_hdr ->
+                       (match ed_b_token_hdr UDP !cur_hdr !p t with
+                        | None -> None
+                        | Some (r, h') -> cur_hdr := h'; Some r)
                    | _ -> ed_b_apply !p e in
                  match rb with
                  | None -> stuck := true; Buffer.add_string b " | STUCK"
